@@ -45,6 +45,7 @@ import (
 	"context"
 	"fmt"
 	"io"
+	"math"
 	"mime/multipart"
 	"net"
 	"net/url"
@@ -828,10 +829,16 @@ func (ctx *RequestContext) Copy() *RequestContext {
 // Next should be used only inside middleware.
 // It executes the pending handlers in the chain inside the calling handler.
 func (ctx *RequestContext) Next(c context.Context) {
-	ctx.index++
+	// index is an int8 and every extra Next call of a handler advances it once more:
+	// never step past MaxInt8, or it wraps to a negative handler position.
+	if ctx.index < math.MaxInt8 {
+		ctx.index++
+	}
 	for ctx.index < int8(len(ctx.handlers)) {
 		ctx.handlers[ctx.index](c, ctx)
-		ctx.index++
+		if ctx.index < math.MaxInt8 {
+			ctx.index++
+		}
 	}
 }
 
